@@ -21,7 +21,7 @@
 (* TraceObs.tla (Inv_C07_PlanConforms / Inv_C08_PlanConforms), so the model *)
 (* and the code are bound at the level of every single decision.           *)
 (***************************************************************************)
-EXTENDS Integers, Sequences, FiniteSets, TLC
+EXTENDS DeployPlan, TLC
 
 CONSTANTS Tmpl,        \* template identities
           Obj,         \* object identities
@@ -37,7 +37,8 @@ Names == Tmpl \X (0..MaxColl)              \* ObjectSet name = <deployment>-hash
 NoName == <<"-", 0>>
 
 NoSet == [ ex |-> FALSE, inc |-> 0, tmpl |-> "-", prev |-> {}, rev |-> 0, avail |-> FALSE, life |-> "Active",
-           mark |-> FALSE, stPaused |-> FALSE, cofSet |-> FALSE, cof |-> {}, vis |-> FALSE, del |-> FALSE, epoch |-> 0 ]
+           mark |-> FALSE, stPaused |-> FALSE, cofSet |-> FALSE, cof |-> {}, vis |-> FALSE, del |-> FALSE, epoch |-> 0,
+           objs |-> {}, hash |-> NoName ]
 
 VARIABLES dep,      \* the ObjectDeployment: [tmpl, coll, paused, strev (status.revision), epoch]
           sets,     \* [Names -> set record]
@@ -53,100 +54,14 @@ VARIABLES dep,      \* the ObjectDeployment: [tmpl, coll, paused, strev (status.
 vars == <<dep, sets, slices, want, od, pk, bud, incc, stale, lastw>>
 
 IdleOd == [ pc |-> "idle", snap |-> [tmpl |-> "-", coll |-> 0, paused |-> FALSE, strev |-> 0, epoch |-> 0],
-            L |-> [n \in Names |-> NoSet], plan |-> <<>>, coll |-> 0, cur |-> NoName ]
+            L |-> [n \in Names |-> NoSet], plan |-> <<>>, coll |-> 0, cur |-> {} ]
 IdlePk == [ pc |-> "idle", want |-> "-", refs |-> {}, seen |-> {}, sl |-> {} ]
 NoStale == [ od |-> {}, odDep |-> FALSE, pkDep |-> FALSE ]
 NoWrite == [ actor |-> "-", op |-> "-", n |-> NoName, s |-> "-" ]
 
 -----------------------------------------------------------------------------
-(* pure decision functions of an ObjectDeployment pass *)
-
-Listed(L) == { n \in Names : L[n].ex }
-MaxRevOf(S, L) == IF S = {} THEN 0 ELSE CHOOSE r \in { L[n].rev : n \in S } : \A m \in S : L[m].rev <= r
-
-\* ascending by status.revision (ties: any fixed order)
-Sorted(S, L) ==
-    IF S = {} THEN <<>>
-    ELSE CHOOSE s \in [1..Cardinality(S) -> S] :
-            /\ \A i, j \in 1..Cardinality(S) : i # j => s[i] # s[j]
-            /\ \A i, j \in 1..Cardinality(S) : i < j => L[s[i]].rev <= L[s[j]].rev
-
-\* the newest listed ObjectSet is current iff its hash annotation equals the hash of the snapshot
-CurrentOf(snap, L) ==
-    LET s == Sorted(Listed(L), L) IN
-    IF s # <<>> /\ s[Len(s)] = <<snap.tmpl, snap.coll>> THEN s[Len(s)] ELSE NoName
-PrevOf(snap, L) == Listed(L) \ {CurrentOf(snap, L)}
-
-\* pause propagation: every non-archived revision whose paused-by-parent mark differs from spec.paused
-RECURSIVE ParentOps(_, _, _)
-ParentOps(s, L, paused) ==
-    IF s = <<>> THEN <<>>
-    ELSE LET n == Head(s)
-             here == IF L[n].life = "Archived" \/ paused = (L[n].life = "Paused" /\ L[n].mark) THEN <<>>
-                     ELSE << [op |-> IF paused THEN "mark" ELSE "unmark", n |-> n] >>
-         IN here \o ParentOps(Tail(s), L, paused)
-
-\* the in-memory copies after the propagation loop
-AfterParent(L, paused) ==
-    [ n \in Names |-> IF ~L[n].ex \/ L[n].life = "Archived" \/ paused = (L[n].life = "Paused" /\ L[n].mark) THEN L[n]
-                      ELSE IF paused THEN [ L[n] EXCEPT !.life = "Paused", !.mark = TRUE ]
-                      ELSE [ L[n] EXCEPT !.life = "Active", !.mark = FALSE ] ]
-
-\* ensurePaused
-EnsP(L, p) == IF L[p].stPaused THEN [ ok |-> TRUE, ops |-> <<>> ]
-              ELSE IF L[p].life = "Paused" THEN [ ok |-> FALSE, ops |-> <<>> ]
-              ELSE [ ok |-> FALSE, ops |-> << [op |-> "pause", n |-> p] >> ]
-
-\* archiveAllLaterRevisions(c, all[1..j-1])
-RECURSIVE ArchEarlier(_, _, _)
-ArchEarlier(s, c, L) ==
-    IF s = <<>> THEN [ elig |-> {}, ops |-> <<>> ]
-    ELSE LET p == Head(s)
-             rest == ArchEarlier(Tail(s), c, L)
-         IN IF L[p].life = "Archived" \/ ~(L[p].rev < L[c].rev) THEN rest
-            ELSE LET e == EnsP(L, p) IN
-                 [ elig |-> (IF e.ok THEN {p} ELSE {}) \cup rest.elig, ops |-> e.ops \o rest.ops ]
-
-\* objectSetsToBeArchived: walk from the newest revision down
-RECURSIVE ArchWalk(_, _, _)
-ArchWalk(all, j, L) ==
-    IF j < 1 THEN [ elig |-> {}, ops |-> <<>> ]
-    ELSE LET c == all[j] IN
-         IF L[c].avail THEN ArchEarlier(SubSeq(all, 1, j - 1), c, L)
-         ELSE IF j = 1 THEN [ elig |-> {}, ops |-> <<>> ]
-         ELSE LET p == all[j - 1]
-                  rest == ArchWalk(all, j - 1, L)
-              IN IF L[p].life = "Archived" \/ L[c].rev <= L[p].rev \/ ~L[p].cofSet
-                    \/ (TObjs[L[c].tmpl] \cap L[p].cof) # {} \/ L[p].avail
-                 THEN rest
-                 ELSE LET e == EnsP(L, p) IN
-                      [ elig |-> (IF e.ok THEN {p} ELSE {}) \cup rest.elig, ops |-> e.ops \o rest.ops ]
-
-\* garbageCollectRevisions: the len(prev) - limit oldest previous revisions
-PruneOps(prevSorted) ==
-    LET k == Len(prevSorted) - HistLimit IN
-    IF k <= 0 THEN <<>> ELSE [ i \in 1..k |-> [op |-> "del", n |-> prevSorted[i]] ]
-
-RECURSIVE MarkOps(_, _, _)
-MarkOps(s, L, prevSorted) ==
-    IF s = <<>> THEN <<>>
-    ELSE (IF L[Head(s)].life # "Archived" /\ L[Head(s)].stPaused THEN << [op |-> "archive", n |-> Head(s)] >> ELSE <<>>)
-         \o PruneOps(prevSorted) \o MarkOps(Tail(s), L, prevSorted)
-
-\* the whole pass after the list
-Plan(snap, L0) ==
-    LET all  == Sorted(Listed(L0), L0)
-        cur  == CurrentOf(snap, L0)
-        prev == Sorted(PrevOf(snap, L0), L0)
-        L    == AfterParent(L0, snap.paused)
-    IN IF \E n \in Listed(L0) : L0[n].rev = 0 THEN <<>>        \* wait until every revision reports its number
-       ELSE ParentOps(all, L0, snap.paused) \o
-            (IF snap.paused THEN <<>>
-             ELSE IF cur = NoName
-               THEN (IF TObjs[snap.tmpl] = {} THEN <<>>
-                     ELSE << [op |-> "create", n |-> <<snap.tmpl, snap.coll>>, prev |-> PrevOf(snap, L0)] >>)
-               ELSE LET w == ArchWalk(all, Len(all), L) IN
-                    w.ops \o MarkOps(Sorted(w.elig, L), L, prev))
+(* the decision function of a pass is DeployPlan!Plan (shared with the trace specification) *)
+PlanSnap(snap) == [ paused |-> snap.paused, hash |-> <<snap.tmpl, snap.coll>>, limit |-> HistLimit, nonEmpty |-> TObjs[snap.tmpl] # {} ]
 
 -----------------------------------------------------------------------------
 Init ==
@@ -181,7 +96,7 @@ OD_Get ==
 OD_List ==
     /\ od.pc = "got"
     /\ LET L == [ n \in Names |-> IF sets[n].ex /\ sets[n].vis THEN sets[n] ELSE NoSet ] IN
-       od' = [ od EXCEPT !.pc = "run", !.L = L, !.plan = Plan(od.snap, L), !.cur = CurrentOf(od.snap, L) ]
+       od' = [ od EXCEPT !.pc = "run", !.L = L, !.plan = Plan(PlanSnap(od.snap), L), !.cur = CurrentOf(PlanSnap(od.snap), L) ]
     /\ stale' = [ stale EXCEPT !.od = {} ]
     /\ lastw' = NoWrite
     /\ UNCHANGED <<dep, sets, slices, want, pk, bud, incc>>
@@ -209,7 +124,7 @@ OD_Create ==
     /\ LET o == Head(od.plan) IN
        IF ~sets[o.n].ex
        THEN /\ sets' = [ sets EXCEPT ![o.n] = [ NoSet EXCEPT !.ex = TRUE, !.inc = incc + 1, !.tmpl = o.n[1], !.prev = o.prev,
-                                                              !.vis = ~Lag, !.epoch = od.snap.epoch ] ]
+                                                              !.vis = ~Lag, !.epoch = od.snap.epoch, !.objs = TObjs[o.n[1]], !.hash = o.n ] ]
             /\ incc' = incc + 1
             /\ od' = [ od EXCEPT !.plan = Tail(@) ]
             /\ lastw' = [ actor |-> "od", op |-> "create", n |-> o.n, s |-> "-" ]
@@ -233,7 +148,7 @@ OD_Delete ==
 
 \* Status().Update of the deployment: persists the collision counter and status.revision; needs the resourceVersion
 \* read at the start.  A write that changes nothing does not change the resourceVersion.
-StatusRev == IF od.cur # NoName THEN od.L[od.cur].rev
+StatusRev == IF od.cur # {} THEN od.L[CHOOSE n \in od.cur : TRUE].rev
              ELSE LET p == Sorted(Listed(od.L), od.L) IN IF p = <<>> THEN od.snap.strev ELSE od.L[p[1]].rev
 OD_Status ==
     /\ od.pc = "run" /\ od.plan = <<>>
